@@ -81,6 +81,11 @@ def def_items():
         if name in a_rhs:
             for r in a_rhs[name]:
                 items.append({'ty': 'def', 'name': name, 'type': T, 'prop': "%s = %s" % (lhs, r)})
+    # a type variable that is not in the constant's type and occurs only below a binder whose own type does not mention it
+    for nm, T, lhs in (('c0', 'bool', 'c0'), ('c1', "'a => bool", 'c1 x')):
+        for r in ("(!w::bool. !u::'b. !v::'b. u = v)", "((%w::bool. !u::'b. !v::'b. u = v) true)", "(?w::bool. ?u::'b. !v::'b. u = v)", "(!w::bool. w --> (!u::'b. !v::'b. u = v))",
+                  "(!w::bool. !u::'a. u = u)"):
+            items.append({'ty': 'def', 'name': nm, 'type': T, 'prop': "%s <--> %s" % (lhs, r)})
     # schematic variables on either side
     items += [{'ty': 'def', 'name': 'c0', 'type': "bool", 'prop': "c0 <--> ?x"}, {'ty': 'def', 'name': 'c1', 'type': "'a => bool", 'prop': "c1 x <--> (x = ?y)"},
               {'ty': 'def', 'name': 'c3', 'type': "'a => 'a", 'prop': "c3 x = ?z"}, {'ty': 'def', 'name': 'c1', 'type': "'a => bool", 'prop': "c1 ?x <--> true"},
@@ -148,6 +153,13 @@ def other_items():
             items.append({'ty': 'type.ind', 'name': 'dp', 'args': ['a', 'b'], 'constrs': [
                 {'name': 'PLeaf', 'type': "'a => ('a, 'b) dp", 'args': ['v']},
                 {'name': 'PNode', 'type': "%s => %s => ('a, 'b) dp" % (k1, k2), 'args': ['l', 'r']}]})
+    # the same argument name at different types in different constructors
+    items += [
+        {'ty': 'type.ind', 'name': 'tm', 'args': [], 'constrs': [{'name': 'Lit', 'type': 'nat => tm', 'args': ['n']}, {'name': 'Neg', 'type': 'tm => tm', 'args': ['n']},
+                                                               {'name': 'Add', 'type': 'tm => tm => tm', 'args': ['a', 'b']}]},
+        {'ty': 'type.ind', 'name': 'rose', 'args': ['a'], 'constrs': [{'name': 'Tip', 'type': "'a => 'a rose", 'args': ['x']}, {'name': 'Fork', 'type': "'a rose => 'a rose => 'a rose", 'args': ['x', 'y']}]},
+        {'ty': 'type.ind', 'name': 'tw', 'args': ['a'], 'constrs': [{'name': 'TwA', 'type': "'a => nat => 'a tw", 'args': ['x', 'y']}, {'name': 'TwB', 'type': "nat => 'a => 'a tw", 'args': ['x', 'y']}]},
+    ]
     # recursive functions and inductive predicates of a few more shapes
     items += [
         {'ty': 'def.ind', 'name': 'addn', 'type': 'nat => nat => nat', 'rules': [{'prop': 'addn 0 m = m'}, {'prop': 'addn (Suc n) m = Suc (addn n m)'}]},
